@@ -3,21 +3,99 @@ import HeimdallModel.Base.UrlEscape
 # Route matching conditions (`internal/rules/route_matcher.go`, `typed_matcher.go`)
 
 Scheme, method, host and path-parameter conditions of a route.  The expression languages (gobwas/glob, Go regexp)
-are trusted libraries; the model knows three shapes of typed matcher whose meaning is independent of those libraries'
-internals: `exact`, a glob `lit*` and a regex `^lit` (literal prefix), which is what the correspondence check generates.
+are trusted libraries; the model knows the fragments of them whose meaning does not depend on those libraries'
+internals, and the correspondence check generates exactly these: `exact`; globs made of literals, `?`, `*` and `**`
+(compiled with a separator: `?` and `*` do not cross it, `**` does; the whole value has to match); regular
+expressions made of literals and `.`, optionally anchored with `^` and `$` (unanchored ends match anywhere, as
+`MatchString` does).
 -/
 namespace Heimdall
 
+/-- glob tokens -/
+inductive GTok where
+  | lit (c : Char) | any1 | star | dstar
+deriving Repr, DecidableEq
+
+/-- regex atoms -/
+inductive RAtom where
+  | lit (c : Char) | dot
+deriving Repr, DecidableEq
+
 inductive TM where
   | exact (s : String)
-  | globPrefix (s : String) (sep : Char)   -- glob `s*` compiled with separator `sep`
-  | regexPrefix (s : String)               -- regex `^s`
+  | glob (toks : List GTok) (sep : Char)                       -- compiled with separator `sep`
+  | regex (atoms : List RAtom) (anchoredStart anchoredEnd : Bool)
 deriving Repr, DecidableEq
+
+/-- Values are byte strings (one `Char` per octet); `?`, `*` of globs and `.` of regular expressions consume one UTF-8
+    encoded code point, or one byte where the bytes are not valid UTF-8 (`utf8.DecodeRuneInString`).  Length of the
+    encoding that starts the list (1 for ASCII and for an invalid byte). -/
+def runeLen : List Char → Nat
+  | [] => 0
+  | b0 :: rest =>
+    let n0 := b0.toNat
+    let cont (lo hi : Nat) (c : Char) : Bool := lo ≤ c.toNat && c.toNat ≤ hi
+    if n0 < 0x80 then 1
+    else if 0xC2 ≤ n0 && n0 ≤ 0xDF then
+      (match rest with | b1 :: _ => if cont 0x80 0xBF b1 then 2 else 1 | _ => 1)
+    else if 0xE0 ≤ n0 && n0 ≤ 0xEF then
+      let lo := if n0 = 0xE0 then 0xA0 else 0x80
+      let hi := if n0 = 0xED then 0x9F else 0xBF
+      (match rest with | b1 :: b2 :: _ => if cont lo hi b1 && cont 0x80 0xBF b2 then 3 else 1 | _ => 1)
+    else if 0xF0 ≤ n0 && n0 ≤ 0xF4 then
+      let lo := if n0 = 0xF0 then 0x90 else 0x80
+      let hi := if n0 = 0xF4 then 0x8F else 0xBF
+      (match rest with
+       | b1 :: b2 :: b3 :: _ => if cont lo hi b1 && cont 0x80 0xBF b2 && cont 0x80 0xBF b3 then 4 else 1
+       | _ => 1)
+    else 1
+
+theorem runeLen_pos (x : Char) (v : List Char) : 0 < runeLen (x :: v) := by
+  unfold runeLen
+  simp only
+  repeat' split
+  all_goals omega
+
+def globMatch (sep : Char) : List GTok → List Char → Bool
+  | [], v => v.isEmpty
+  | .lit c :: ps, x :: v => c == x && globMatch sep ps v
+  | .lit _ :: _, [] => false
+  | .any1 :: ps, x :: v => x != sep && globMatch sep ps ((x :: v).drop (runeLen (x :: v)))
+  | .any1 :: _, [] => false
+  | .star :: ps, [] => globMatch sep ps []
+  | .star :: ps, x :: v =>
+      globMatch sep ps (x :: v) || (x != sep && globMatch sep (.star :: ps) ((x :: v).drop (runeLen (x :: v))))
+  | .dstar :: ps, [] => globMatch sep ps []
+  | .dstar :: ps, x :: v => globMatch sep ps (x :: v) || globMatch sep (.dstar :: ps) v
+termination_by ps v => (ps.length, v.length)
+decreasing_by
+  all_goals simp_wf
+  all_goals first
+    | (apply Prod.Lex.left; omega)
+    | (apply Prod.Lex.right; have := runeLen_pos x v; omega)
+    | (apply Prod.Lex.right; omega)
+
+/-- the atoms match a prefix of the value; what is left -/
+def atomsMatch : List RAtom → List Char → Option (List Char)
+  | [], v => some v
+  | _ :: _, [] => none
+  | .lit c :: as, x :: v => if c == x then atomsMatch as v else none
+  | .dot :: as, x :: v => if x == '\n' then none else atomsMatch as ((x :: v).drop (runeLen (x :: v)))
+
+def regexFrom (atoms : List RAtom) (anchoredEnd : Bool) (v : List Char) : Bool :=
+  match atomsMatch atoms v with
+  | some rest => !anchoredEnd || rest.isEmpty
+  | none => false
+
+def suffixes : List Char → List (List Char)
+  | [] => [[]]
+  | x :: v => (x :: v) :: suffixes v
 
 def TM.matches : TM → String → Bool
   | .exact s, v => s == v
-  | .globPrefix s sep, v => s.toList.isPrefixOf v.toList && !(v.toList.drop s.length).contains sep
-  | .regexPrefix s, v => s.toList.isPrefixOf v.toList
+  | .glob toks sep, v => globMatch sep toks v.toList
+  | .regex atoms aS aE, v =>
+      if aS then regexFrom atoms aE v.toList else (suffixes v.toList).any (regexFrom atoms aE)
 
 def stdMethods : List String :=
   ["GET", "HEAD", "POST", "PUT", "PATCH", "DELETE", "CONNECT", "OPTIONS", "TRACE"]
